@@ -58,6 +58,10 @@ def run(ctx):
     r = vlib.run_tlc(ctx, "router", "WeightedCluster", "WeightedCluster_defect.cfg", expect_ok=False)
     if r["ok"]:
         raise vlib.Inconclusive("WeightedCluster model does not reject the LeZero defect: invariants vacuous")
+    # from the configuration object to the rule: every rule built from one object honours it, the object is left as it was
+    ctx.add_tlc(vlib.run_tlc(ctx, "router", "WeightedClusterBuild", "WeightedClusterBuild.cfg"))
+    if vlib.run_tlc(ctx, "router", "WeightedClusterBuild", "WeightedClusterBuild_defect_BuildCompactsConfig.cfg", expect_ok=False)["ok"]:
+        raise vlib.Inconclusive("WeightedClusterBuild does not reject BuildCompactsConfig")
     edf_raw = os.path.join(ctx.tmp, "edf_raw.jsonl")
     r = vlib.run_tlc(ctx, "cluster", "Edf", "Edf.cfg" if q else "Edf_thorough.cfg", cases_to=edf_raw, timeout=1700)
     ctx.add_tlc(r)
@@ -132,7 +136,7 @@ def run(ctx):
                                                context=evs[max(0, line - 6):line]))
     ctx.cov["distinct_nontrivial"] = ctx.cov["evaluations"]
     ctx.cov["rule"] = ("wc: every weight map TLC enumerates (subsets of clusters x weights incl. 0) x every draw in 0..total-1 x %d "
-                       "repetitions (map iteration order varies per call; the visit hook records it); edf: every configured "
+                       "repetitions (map iteration order varies per call; the visit hook records it), each configuration object (clusters stored by ascending / descending name in turn) built into a rule twice with the second rule swept as well and the object compared before/after each build; edf: every configured "
                        "weight vector incl. clamped 0 and 200 in every host order (<= 3 hosts; identity, reverse, a seeded shuffle and in the thorough tier the rotations beyond), 3*sum(w) consecutive ChooseHost calls on the real WRR balancer; "
                        "a case is one real call" % reps)
     ctx.cov["exhaustive"] = True
